@@ -27,7 +27,8 @@ META = {
     'technique': 'Coq proof about an executable Gallina model + kernel-evaluated correspondence with the implementation',
     'rule': ('settings files from one PRNG (2-6 inputs over the five distributions, 1-4 outputs) on the HIP-RA-X base with 1/4/16 workers, '
              'one with a distribution that straddles a parameter bound (failing iterations), one GEOPHIRES run, two settings files with an '
-             'OUTPUT label that no report carries; every row is re-simulated; a row is non-trivial when its sampled vector is new; '
+             'OUTPUT label that no report carries, settings with one / two short-valued outputs (output part of a row <= 10 characters); every one of '
+             'the ITERATIONS work packages must have been executed and rows = iterations whose own simulation succeeds; every row is re-simulated; a row is non-trivial when its sampled vector is new; '
              'evaluations = rows replayed + statistics compared + headers'),
     'trusted_base': ['Coq 8.16.1 kernel + vm_compute (no native_compute)',
                      'all C14 theorems: Closed under the global context (no axioms)',
